@@ -1600,9 +1600,11 @@ def check(run):
                     'harness/impl_c16.py: decoding of Stream.stream items into model tokens; the call recorder (wraps the methods of weasyprint.pdf.stream.Stream in the worker process)',
                     'pydyf (not in the repository): its one-item-per-call emitters are exercised as `Tok k`; file syntax (header, xref, trailer) is monitored, not modelled']
     run.trusted += ['tools/py2coq.py (printer of the Stream methods into gen/GenStream.v; option obj_methods: super().m() as the oracle "super.m", '
-                    'x.a.append / x.a.pop() on list attributes as rebinding of the attribute, bytes literals as the text of their repr) and base/Py.v',
-                    'model/C16Py.v pydyf_call: what pydyf.Stream.push_state / pop_state / begin_text / end_text / set_font_size / end_marked_content '
-                    'append to self.stream (pydyf is not in the repository); methods are resolved by name']
+                    'x.a.append / x.a.pop() / x.a[-1] = e on list attributes as rebinding of the attribute, bytes literals as the text of their repr, '
+                    'pydyf.Dictionary({..}) as the oracle "pydyf.Dictionary") and base/Py.v; Matrix(..) and @ in Stream.transform are linked to gen/GenMatrix.v',
+                    'model/C16Py.v pydyf_call: what pydyf.Stream.push_state / pop_state / begin_text / end_text / set_font_size / end_marked_content / '
+                    'begin_marked_content / set_matrix append to self.stream (pydyf is not in the repository) and what Stream.get_marked_content_tag '
+                    'answers (any str); methods are resolved by name']
     run.assumptions += ['an exception swallowed around drawing calls is either rolled back (SVGImage.draw: checkpoint/rollback, theorems C16_*_with_failed_drawings, exercised by the monitor) or raised by a call that opens no bracket (suppress(PointError) around one shape in svg draw_node); the AST pass lists these two places',
                         'content of fonts, images and attachments is judged by decodability only (font tables: C16 partial)',
                         'reference interpreter: fill/stroke colour, alpha constants, font, CTM, text matrix, q/Q stack; dash, line width, clip, blend mode and soft mask are not cached by Stream and therefore not part of skip soundness']
